@@ -723,7 +723,12 @@ unsafe fn slice_file(image: &[u8], rva: Rva, min_size_of: usize, align_of: usize
 		Err(Error::Misaligned)
 	}
 	else {
-		range_file(image, rva, min_size_of)
+		let bytes = range_file(image, rva, min_size_of)?;
+		// The file offset of the section may be aligned differently than its rva
+		if !bytes.as_ptr().aligned_to(align_of) {
+			return Err(Error::Misaligned);
+		}
+		Ok(bytes)
 	}
 }
 #[inline(never)]
@@ -742,7 +747,12 @@ unsafe fn read_file(image: &[u8], image_base: Va, va: Va, min_size_of: usize, al
 			Err(Error::Misaligned)
 		}
 		else {
-			range_file(image, rva, min_size_of)
+			let bytes = range_file(image, rva, min_size_of)?;
+			// The file offset of the section may be aligned differently than its rva
+			if !bytes.as_ptr().aligned_to(align_of) {
+				return Err(Error::Misaligned);
+			}
+			Ok(bytes)
 		}
 	}
 }
